@@ -204,7 +204,7 @@ def case_lines(ops, start):
 # ----------------------------------------------------------------------------- monitors on implementation traces
 
 U32 = 1 << 32
-BUF_OPS = ("put", "get", "put_var", "get_var", "put_slice", "set_len", "align_to", "put_aligned", "putT")
+BUF_OPS = ("put", "get", "put_var", "get_var", "put_varu", "get_varu", "put_slice", "set_len", "align_to", "put_aligned", "putT")
 
 def parse_fl(s):
     if s is None or s == "[]":
@@ -229,6 +229,16 @@ def release_expect(kind, pal, pdi, pfl, ms_, boff_, bcap_):
     if kind == "none" or bcap_ <= pad_ + 8 or bcap_ - pad_ - 8 < ms_:
         return (pal, (pdi + bcap_) % U32, sorted(pfl))
     return (pal, (pdi + 8) % U32, sorted(pfl + [(boff_ + pad_, bcap_ - pad_ - 8)]))
+
+def leb_len(ty, v):
+    """bytes of the LEB128 encoding of v as type ty (zig-zag for the signed types)"""
+    bits = int(ty[1:])
+    u = (v % (1 << bits)) if ty[0] == "u" else ((2 * v) if v >= 0 else (-2 * v - 1)) % (1 << bits)
+    n = 1
+    while u >= 128:
+        u >>= 7; n += 1
+    return n
+
 
 def monitor_case(ops, obs, which):
     """Evaluate the executable oracles `which` (set of property ids) on one case of an
@@ -262,7 +272,19 @@ def monitor_case(ops, obs, which):
             if "al" in o: prev = o
             continue
         if r.startswith("panic") or r.startswith("trap") or r.startswith("sig") or r == "diverge":
-            if not (t[0] == "set_len"):
+            # (`reserved_slice_mut` on a read-only arena panics by contract; `set_len` beyond the capacity too)
+            # the `*_varint_unchecked` calls panic by contract: the put when the encoding does not fit, the get on
+            # bytes that are no varint (the latter is left to the comparison with the model)
+            unchecked_ok = False
+            if r.startswith("panic") and t[0] == "get_varu":
+                unchecked_ok = True
+            if r.startswith("panic") and t[0] == "put_varu" and len(t) == 4 and t[1].isdigit() and int(t[1]) in bufs:
+                _, bc_, bl_ = bufs[int(t[1])]
+                if bc_ - bl_ < leb_len(t[2], int(t[3])):
+                    unchecked_ok = True
+                else:
+                    V("C14", "unchecked-put-panics", f"{ops[i].strip()} panicked with {bc_ - bl_} bytes of room (needs {leb_len(t[2], int(t[3]))})", i)
+            if not (t[0] == "set_len") and not unchecked_ok and not (t[0] == "wres" and r.startswith("panic") and fstate.get("ro_state") and not fstate["closed"]):
                 V("C04", "panic", f"{ops[i].strip()} -> {r}", i)
             # C09: a read-only arena rejects mutating calls with an error or the documented panic of
             # `reserved_slice_mut`, never with a crash
@@ -486,6 +508,8 @@ def monitor_case(ops, obs, which):
                         elif kind == "none":
                             V("C10", "none-reuses", f"Freelist::None served [{boff},+{bcap}) below the cursor {pal}", i)
                     live[h] = (off, cap, boff, bcap, owned)
+                    if not rewound and (di - pdi) % U32 not in (0, 8):
+                        V("C20", "alloc-changes-discarded", f"{ops[i].strip()} succeeded and changed discarded() {pdi} -> {di} (an allocation adds nothing, or the 8 header bytes of a remainder it gives back)", i)
                 if op.startswith("alloc_bytes") or op.startswith("alloc_aligned"):
                     bufs[h] = [off, cap, 0]
                 if need > 0 and (cap == 0):
@@ -495,6 +519,20 @@ def monitor_case(ops, obs, which):
             else:
                 if r not in ("InsufficientSpace", "ReadOnly"):
                     V("C04", "bad-error", f"{ops[i].strip()} -> {r}", i)
+                # allocations succeed exactly when they fit: a request the fresh space can hold must not be refused
+                if r == "InsufficientSpace" and al <= cp and not (fstate.get("ro_state") and not fstate["closed"]):
+                    try:
+                        if op.startswith("alloc_bytes"): A_, need_ = 1, int(t[2])
+                        elif op.startswith("alloc_aligned"): A_, need_ = int(t[2]), int(t[3]) + int(t[4])
+                        elif op.startswith("alloc_d"): A_, need_ = 8, 8
+                        elif op.startswith("alloc_z"): A_, need_ = 1, 0
+                        else: A_, need_ = int(t[2]), int(t[3])
+                        start_ = (pal + A_ - 1) // A_ * A_
+                        if need_ > 0 and start_ + need_ <= cp:
+                            V("C04", "refused-although-fits", f"{ops[i].strip()} -> InsufficientSpace although [{start_},{start_+need_}) fits below the capacity {cp} (cursor {pal})", i)
+                            V("C18", "refused-although-fits", f"{ops[i].strip()} -> InsufficientSpace although [{start_},{start_+need_}) fits below the capacity {cp} (cursor {pal})", i)
+                    except (ValueError, IndexError):
+                        pass
                 if (al, di, o.get("fl")) != (pal, pdi, prev.get("fl")):
                     V("C04", "error-changes-state", f"failed {ops[i].strip()} changed (al,di,fl) {(pal,pdi,prev.get('fl'))} -> {(al,di,o.get('fl'))}", i)
                 # C10: failure policy
@@ -558,6 +596,8 @@ def monitor_case(ops, obs, which):
                 live.clear(); dead.clear(); rewound = False
                 if al != doff or di != 0 or fl:
                     V("C17", "clear", f"after clear: allocated {al} (data_offset {doff}) discarded {di} fl {fl}", i)
+                if o.get("ms") != prev.get("ms"):
+                    V("C17", "clear-changes-minseg", f"clear changed minimum_segment_size() {prev.get('ms')} -> {o.get('ms')}", i)
                 # ... and the bytes are those of a freshly created arena (same capacity, same minimum segment size, reserved
                 # slice never written, never reopened): the whole-memory hash equals the one right after construction
                 if not fstate.get("wres") and fstate["mode"] is None and cp == int(o0["cp"]) and o.get("ms") == o0.get("ms") \
@@ -616,11 +656,15 @@ def monitor_case(ops, obs, which):
                     n = int(t[2]) if op == "put_slice" else int(t[3])
                     if nlen != blen + n:
                         V("C14", "put-len", f"{ops[i].strip()}: len {blen} -> {nlen}", i)
-                elif op == "put_var":
+                elif op in ("put_var", "put_varu"):
+                    if op == "put_varu" and int(o["n"]) != leb_len(t[2], int(t[3])):
+                        V("C14", "leb-length", f"{ops[i].strip()}: n={o['n']}, the encoding has {leb_len(t[2], int(t[3]))} bytes", i)
                     if nlen != blen + int(o["n"]):
                         V("C14", "put-len", f"{ops[i].strip()}: len {blen} -> {nlen} n={o['n']}", i)
-                elif op == "get_var":
-                    if lastput and lastput[0] == h and lastput[1][0] == "put_var" and lastput[1][2] == t[2] and lastput[2] == 0 and lastput[3] == i - 1:
+                elif op in ("get_var", "get_varu"):
+                    if nlen != blen:
+                        V("C14", "get-len", f"{ops[i].strip()}: len {blen} -> {nlen} (the varint get does not consume)", i)
+                    if lastput and lastput[0] == h and lastput[1][0] in ("put_var", "put_varu") and lastput[1][2] == t[2] and lastput[2] == 0 and lastput[3] == i - 1:
                         bits = 8 * W[t[2]]; v = int(lastput[1][3]); signed = t[2][0] == "i"
                         inr = (-(1 << (bits - 1)) <= v < (1 << (bits - 1))) if signed else (0 <= v < (1 << bits))
                         if inr and (int(o["val"]) != v or int(o["n"]) != lastput[4]):
@@ -634,7 +678,10 @@ def monitor_case(ops, obs, which):
                         po = int(o["po"])
                         if po % A_ != 0 or po < boff_ + blen or po > boff_ + bcap_ or (op == "put_aligned" and po + S_ > boff_ + bcap_):
                             V("C14", "align", f"{ops[i].strip()}: pointer offset {po}, buffer [{boff_},{boff_+bcap_}) len {blen}", i)
-            if r == "ok" and op in ("put", "put_var"):
+                        # the address itself, not only the offset (the arena's base is aligned to maximum_alignment)
+                        if o.get("pa", "0") != "0":
+                            V("C14", "align-address", f"{ops[i].strip()}: returned address is {o['pa']} past a multiple of the alignment", i)
+            if r == "ok" and op in ("put", "put_var", "put_varu"):
                 lastput = (h, t, blen, i, int(o.get("n", 0)))
             bufs[h][2] = nlen
         if op == "rd" and len(t) == 4:
@@ -678,6 +725,19 @@ def monitor_case(ops, obs, which):
             if r == "ok" and "um" in o and o["um"] != "1":
                 V("C13", "unmount-count", f"close released the backing memory {o['um']} times (expected exactly once)", i)
         if op == "wres": fstate["wres"] = True
+        # ---- C16: the reserved slice has the configured length and only the user writes it
+        if op == "wres" and r == "ok":
+            fstate["resb"] = int(t[1])
+        if op in ("reopen", "mutate_file", "truncate_file", "random_file", "delete_file"):
+            fstate["resb"] = None
+        if op == "rres" and r == "ok":
+            n_, s_ = (int(x) for x in o["val"].split(","))
+            R_ = int(cfg.get("reserved", 0))
+            if n_ != R_:
+                V("C16", "reserved-length", f"reserved_slice() has {n_} bytes, configured {R_}", i)
+            b_ = fstate.get("resb", 0)
+            if b_ is not None and s_ != (b_ * (R_ * (R_ + 1) // 2)) % U32:
+                V("C16", "reserved-written", f"the reserved bytes are no longer the {b_}s the user left there (weighted sum {s_})", i)
         if op == "truncate" and (r.startswith("panic") or r.startswith("sig")):
             V("C18", "truncate-panics", f"{ops[i].strip()} -> {r}", i)
         if op == "remove_on_drop" and r == "ok": fstate["remove"] = (t[1] == "1")
